@@ -226,6 +226,7 @@ func checkC11(w *World, r *Report) {
 	c11NoBlock(w, r, q)
 	c05Batching(w, r, "C11.f", "f-announced-index-not-ahead")
 	c11ServingShard(w, r)
+	c11HeapRebuild(w, r)
 }
 
 // c11ServingShard: an applied index is announced for a table only by the shard its reads go to.
@@ -267,9 +268,15 @@ func c11ServingShard(w *World, r *Report) {
 		id := Expr(args[2])
 		n++
 		ob.Site(ci.Pos(), FnName(ci.Parent())+" starts a shard under id "+id)
-		// (the reconciliation starts shards out of a set keyed by ClusterID and RecoverID alike: that
-		// call site is a recovery start only after a restart in the middle of a recovery - not decided)
-		recovery := strings.Contains(id, "RecoverID")
+		pv := newIDProv()
+		pv.value(args[2])
+		fields := pv.Fields()
+		if len(fields) > 0 {
+			ob.Site(ci.Pos(), FnName(ci.Parent())+": the id derives from field(s) "+strings.Join(fields, ", "))
+		}
+		// the reconciliation starts shards out of a set keyed by ClusterID and RecoverID alike: on every
+		// node other than the one running Restore that call site is what starts the recovery shard
+		recovery := strings.Contains(id, "RecoverID") || pv.fields["RecoverID"]
 		if recovery && unconditional {
 			ob.Violate("recovery-shard-announces@"+FnName(ci.Parent()), ci.Pos(), FnName(ci.Parent())+" starts a recovery shard (id `"+id+"`) whose state machine announces its applied leader index under the table's own name: waiters of the table are released while reads still go to the old shard")
 		}
